@@ -9,6 +9,8 @@ import Mathlib.Tactic.LinearCombination
 import Mathlib.Algebra.Order.Field.Basic
 import Mathlib.Analysis.Complex.Exponential
 import Mathlib.Algebra.BigOperators.Intervals
+import Mathlib.Algebra.Order.Archimedean.Basic
+import Mathlib.Algebra.Order.BigOperators.Group.List
 /-
 C06 - time steppers realise their scheme.
 Property theorems about `PdeVerif.Solvers` (model of pde/solvers/*.py and of the compiled loops
@@ -168,6 +170,62 @@ theorem cn_quadrature (b0 b1 b2 b3 dt u t : K) (k : Nat) :
       = u + dt / 2 * ((b0 + b1 * (t + dt) + b2 * (t + dt) ^ 2 + b3 * (t + dt) ^ 3)
                       + (b0 + b1 * t + b2 * t ^ 2 + b3 * t ^ 3)) := by
   cases k <;> simp only [cnCell, cnIter, cubic] <;> push_cast <;> ring
+
+/-! ### successive iterates of the implicit schemes: what the stopping test sees -/
+
+/-- implicit Euler: successive iterates differ by `z^(k+2) u` -/
+theorem implicit_increment (a dt u t : K) (k : Nat) :
+    implicitCell (linear a) dt t u (k + 1) - implicitCell (linear a) dt t u k = (a * dt) ^ (k + 2) * u := by
+  induction k with
+  | zero => simp only [implicitCell, implicitIter, implicitPredict, linear]; ring
+  | succ k ih =>
+    have : implicitCell (linear a) dt t u (k + 1 + 1) - implicitCell (linear a) dt t u (k + 1)
+        = a * dt * (implicitCell (linear a) dt t u (k + 1) - implicitCell (linear a) dt t u k) := by
+      simp only [implicitCell, implicitIter, linear]; ring
+    rw [this, ih]; ring
+
+/-- the residual of the implicit equation `(1 - z) y = u` at an iterate is `-z` times the last change -/
+theorem implicit_residual (a dt u t : K) (k : Nat) :
+    (1 - a * dt) * implicitCell (linear a) dt t u (k + 1) - u
+      = -(a * dt) * (implicitCell (linear a) dt t u (k + 1) - implicitCell (linear a) dt t u k) := by
+  rw [implicit_increment]
+  have := implicit_iterates a dt u t (k + 1)
+  linear_combination this
+
+/-- Crank-Nicolson: the change of one iteration is `(q - 1)` times the defect, `q = α + (1-α) z/2` -/
+theorem cn_increment (α a dt u t : K) (k : Nat) :
+    (1 - a * dt / 2) * (cnCell α (linear a) dt t u (k + 1) - cnCell α (linear a) dt t u k)
+      = (α + (1 - α) * (a * dt / 2) - 1)
+        * ((1 - a * dt / 2) * cnCell α (linear a) dt t u k - (1 + a * dt / 2) * u) := by
+  simp only [cnCell, cnIter, linear]; push_cast; ring
+
+/-- the defect of the Crank-Nicolson equation `(1 - z/2) y = (1 + z/2) u` at an iterate, times `1 - q`,
+is `-q (1 - z/2)` times the last change -/
+theorem cn_residual (α a dt u t : K) (k : Nat) :
+    (1 - (α + (1 - α) * (a * dt / 2)))
+        * ((1 - a * dt / 2) * cnCell α (linear a) dt t u (k + 1) - (1 + a * dt / 2) * u)
+      = -(α + (1 - α) * (a * dt / 2)) * (1 - a * dt / 2)
+        * (cnCell α (linear a) dt t u (k + 1) - cnCell α (linear a) dt t u k) := by
+  have h1 := cn_increment α a dt u t k
+  have h2 : (1 - a * dt / 2) * cnCell α (linear a) dt t u (k + 1) - (1 + a * dt / 2) * u
+      = (α + (1 - α) * (a * dt / 2))
+        * ((1 - a * dt / 2) * cnCell α (linear a) dt t u k - (1 + a * dt / 2) * u) := by
+    simp only [cnCell, cnIter, linear]; push_cast; ring
+  linear_combination (1 - (α + (1 - α) * (a * dt / 2))) * h2 + (α + (1 - α) * (a * dt / 2)) * h1 - (α + (1 - α) * (a * dt / 2)) * h2 + (α + (1 - α) * (a * dt / 2)) * h2
+
+/-- the Crank-Nicolson iteration on `u' = a u` is affine with slope `q = α + (1-α) z/2`: successive
+iterates differ by `q^k` times the first difference -/
+theorem cn_increment_geometric (α a dt u t : K) (k : Nat) :
+    cnCell α (linear a) dt t u (k + 1) - cnCell α (linear a) dt t u k
+      = (α + (1 - α) * (a * dt / 2)) ^ k
+        * (((α + (1 - α) * (a * dt / 2) - 1) * (α + (1 - α) * (1 + a * dt)) + (1 - α) * (1 + a * dt / 2)) * u) := by
+  induction k with
+  | zero => simp only [cnCell, cnIter, linear]; push_cast; ring
+  | succ k ih =>
+    have : cnCell α (linear a) dt t u (k + 1 + 1) - cnCell α (linear a) dt t u (k + 1)
+        = (α + (1 - α) * (a * dt / 2)) * (cnCell α (linear a) dt t u (k + 1) - cnCell α (linear a) dt t u k) := by
+      simp only [cnCell, cnIter, linear]; push_cast; ring
+    rw [this, ih]; ring
 
 /-! ### Adams-Bashforth -/
 
@@ -429,6 +487,189 @@ theorem cnStep_cells (α : K) (f : Rate K) (maxiter : Nat) (maxerror dt : K) (us
   subst hn'
   exact ⟨by omega, by omega, hy, by simpa using hconv⟩
 
+/-! ### "iterations converged": what a returned state satisfies, and termination under contraction -/
+
+theorem zipWith_map_map {α β γ δ : Type} (g : β → γ → δ) (h1 : α → β) (h2 : α → γ) (us : List α) :
+    List.zipWith g (us.map h1) (us.map h2) = us.map (fun u => g (h1 u) (h2 u)) := by
+  induction us with
+  | nil => rfl
+  | cons u us ih => simp [ih]
+
+theorem foldl_add_eq_sum (l : List K) (c : K) : l.foldl (· + ·) c = c + l.sum := by
+  induction l generalizing c with
+  | nil => simp
+  | cons x xs ih => simp [ih, add_assoc]
+
+/-- the mean squared difference of two states given cell-wise: `N * msq = Σ (F u - G u)^2` -/
+theorem msqDiff_map (F G : K → K) (us : List K) :
+    msqDiff (us.map F) (us.map G) = (us.map (fun u => (F u - G u) * (F u - G u))).sum / (us.length : K) := by
+  unfold msqDiff
+  rw [zipWith_map_map, foldl_add_eq_sum]
+  simp [HasNormSq.nsq]
+
+/-- a mean squared difference below `e` bounds every cell: `(F u - G u)^2 ≤ N * e` -/
+theorem cell_sq_le_of_msqDiff_lt (F G : K → K) (us : List K) (e : K)
+    (h : msqDiff (us.map F) (us.map G) < e) : ∀ u ∈ us, (F u - G u) ^ 2 ≤ (us.length : K) * e := by
+  intro u hu
+  have hN : (0 : K) < (us.length : K) := by
+    have : 0 < us.length := List.length_pos_of_mem hu
+    exact_mod_cast this
+  rw [msqDiff_map, div_lt_iff₀ hN] at h
+  have hmem : (F u - G u) * (F u - G u) ∈ us.map (fun u => (F u - G u) * (F u - G u)) :=
+    List.mem_map.mpr ⟨u, hu, rfl⟩
+  have hle := List.single_le_sum (l := us.map (fun u => (F u - G u) * (F u - G u)))
+    (by intro x hx; obtain ⟨v, _, rfl⟩ := List.mem_map.mp hx; exact mul_self_nonneg _) _ hmem
+  calc (F u - G u) ^ 2 = (F u - G u) * (F u - G u) := by ring
+    _ ≤ _ := hle
+    _ ≤ (us.length : K) * e := by linarith [mul_comm e (us.length : K)]
+
+/-- **implicit Euler, "iterations converged"**: every cell `y` of a returned state satisfies the
+implicit equation `(1 - z) y = u` up to the stopping threshold:
+`((1 - z) y - u)^2 ≤ z^2 * N * maxerror^2` (`N` cells, `z = a dt`), i.e. for `z ≠ 1` the returned
+value is within `|z|/|1-z| * sqrt N * maxerror` of `u/(1-z)`; no contraction hypothesis -/
+theorem implicitStep_converged_close (a : K) (maxiter : Nat) (maxerror dt : K) (us : List K) (t : K)
+    (ys : List K) (n : Nat) (h : implicitStep (linear a) maxiter maxerror dt us t = some (ys, n)) :
+    List.Forall₂ (fun y u => ((1 - a * dt) * y - u) ^ 2 ≤ (a * dt) ^ 2 * ((us.length : K) * (maxerror * maxerror)))
+      ys us := by
+  obtain ⟨h1, _, hy, hconv, _⟩ := implicitStep_cells (linear a) maxiter maxerror dt us t ys n h
+  obtain ⟨k, rfl⟩ : ∃ k, n = k + 1 := ⟨n - 1, by omega⟩
+  simp only [Nat.add_sub_cancel] at hconv
+  have hc := cell_sq_le_of_msqDiff_lt _ _ us _ hconv
+  rw [hy, List.forall₂_map_left_iff]
+  refine List.forall₂_same.mpr (fun u hu => ?_)
+  rw [implicit_residual]
+  have := hc u hu
+  calc (-(a * dt) * (implicitCell (linear a) dt t u (k + 1) - implicitCell (linear a) dt t u k)) ^ 2
+      = (a * dt) ^ 2 * (implicitCell (linear a) dt t u (k + 1) - implicitCell (linear a) dt t u k) ^ 2 := by ring
+    _ ≤ _ := mul_le_mul_of_nonneg_left this (sq_nonneg _)
+
+/-- the same with the distance to the converged value `u / (1 - z)` -/
+theorem implicitStep_converged_distance (a : K) (maxiter : Nat) (maxerror dt : K) (us : List K) (t : K)
+    (ys : List K) (n : Nat) (hz : 1 - a * dt ≠ 0)
+    (h : implicitStep (linear a) maxiter maxerror dt us t = some (ys, n)) :
+    List.Forall₂ (fun y u => (y - u / (1 - a * dt)) ^ 2
+        ≤ (a * dt / (1 - a * dt)) ^ 2 * ((us.length : K) * (maxerror * maxerror))) ys us := by
+  refine (implicitStep_converged_close a maxiter maxerror dt us t ys n h).imp ?_
+  intro y u hyu
+  have hpos : 0 < (1 - a * dt) ^ 2 := by positivity
+  have e1 : (y - u / (1 - a * dt)) ^ 2 = ((1 - a * dt) * y - u) ^ 2 / (1 - a * dt) ^ 2 := by
+    field_simp
+  have e2 : (a * dt / (1 - a * dt)) ^ 2 * ((us.length : K) * (maxerror * maxerror))
+      = (a * dt) ^ 2 * ((us.length : K) * (maxerror * maxerror)) / (1 - a * dt) ^ 2 := by
+    field_simp
+  rw [e1, e2]
+  exact div_le_div_of_nonneg_right hyu hpos.le
+
+/-- **Crank-Nicolson, "iterations converged"**: every cell `y` of a returned state satisfies the
+Crank-Nicolson equation `(1 - z/2) y = (1 + z/2) u` up to the stopping threshold, for every explicit
+fraction: with `q = α + (1-α) z/2`,
+`((1 - q) ((1 - z/2) y - (1 + z/2) u))^2 ≤ (q (1 - z/2))^2 * N * maxerror^2` -/
+theorem cnStep_converged_close (α a : K) (maxiter : Nat) (maxerror dt : K) (us : List K) (t : K)
+    (ys : List K) (n : Nat) (h : cnStep α (linear a) maxiter maxerror dt us t = some (ys, n)) :
+    List.Forall₂ (fun y u =>
+        ((1 - (α + (1 - α) * (a * dt / 2))) * ((1 - a * dt / 2) * y - (1 + a * dt / 2) * u)) ^ 2
+          ≤ ((α + (1 - α) * (a * dt / 2)) * (1 - a * dt / 2)) ^ 2 * ((us.length : K) * (maxerror * maxerror)))
+      ys us := by
+  obtain ⟨h1, _, hy, hconv⟩ := cnStep_cells α (linear a) maxiter maxerror dt us t ys n h
+  obtain ⟨k, rfl⟩ : ∃ k, n = k + 1 := ⟨n - 1, by omega⟩
+  simp only [Nat.add_sub_cancel] at hconv
+  have hc := cell_sq_le_of_msqDiff_lt _ _ us _ hconv
+  rw [hy, List.forall₂_map_left_iff]
+  refine List.forall₂_same.mpr (fun u hu => ?_)
+  rw [cn_residual]
+  have := hc u hu
+  calc (-(α + (1 - α) * (a * dt / 2)) * (1 - a * dt / 2)
+          * (cnCell α (linear a) dt t u (k + 1) - cnCell α (linear a) dt t u k)) ^ 2
+      = ((α + (1 - α) * (a * dt / 2)) * (1 - a * dt / 2)) ^ 2
+          * (cnCell α (linear a) dt t u (k + 1) - cnCell α (linear a) dt t u k) ^ 2 := by ring
+    _ ≤ _ := mul_le_mul_of_nonneg_left this (sq_nonneg _)
+
+/-- an iteration count that passes the test within `maxiter` makes the loop return -/
+theorem fixpointLoop_some_of_pass (it : List K → List K) (e : K) (m : Nat) (xs : List K) (n : Nat)
+    (h : ∃ i < m, msqDiff (it^[i + 1] xs) (it^[i] xs) < e) : (fixpointLoop it e m xs n).isSome = true := by
+  cases hr : fixpointLoop it e m xs n with
+  | some r => rfl
+  | none =>
+    obtain ⟨i, hi, hp⟩ := h
+    exact absurd hp (fixpointLoop_none it e m xs n hr i hi)
+
+theorem exists_geometric_lt [Archimedean K] (r M e : K) (hr : r < 1) (hM : 0 ≤ M) (he : 0 < e) :
+    ∃ i : Nat, r ^ i * M < e := by
+  rcases eq_or_lt_of_le hM with h0 | hpos
+  · exact ⟨0, by rw [← h0]; simpa using he⟩
+  · obtain ⟨n, hn⟩ := exists_pow_lt_of_lt_one (div_pos he hpos) hr
+    refine ⟨n, ?_⟩
+    calc r ^ n * M < e / M * M := mul_lt_mul_of_pos_right hn hpos
+      _ = e := by field_simp
+
+theorem meanSq_nonneg (us : List K) : 0 ≤ (us.map (fun u => u * u)).sum / (us.length : K) := by
+  apply div_nonneg
+  · apply List.sum_nonneg
+    intro x hx; obtain ⟨v, _, rfl⟩ := List.mem_map.mp hx; exact mul_self_nonneg _
+  · positivity
+
+/-- **contraction implies termination (implicit Euler)**: for `|z| < 1` and a positive threshold there
+is an iteration bound `N₀` such that every `maxiter ≥ N₀` makes the step return a state (no
+`ConvergenceError`), whatever the state -/
+theorem implicitStep_terminates [Archimedean K] (a maxerror dt : K) (us : List K) (t : K)
+    (hz : |a * dt| < 1) (he : 0 < maxerror) :
+    ∃ N0 : Nat, ∀ maxiter, N0 ≤ maxiter →
+      (implicitStep (linear a) maxiter maxerror dt us t).isSome = true := by
+  set S : K := (us.map (fun u => u * u)).sum / (us.length : K) with hS
+  have hS0 : 0 ≤ S := meanSq_nonneg us
+  have hz2 : (a * dt) ^ 2 < 1 := by
+    have := abs_nonneg (a * dt)
+    rw [← sq_abs]; nlinarith
+  -- the mean squared change of iteration i is z^(2(i+2)) * S
+  have hmsq : ∀ i : Nat, msqDiff (us.map (fun u => implicitCell (linear a) dt t u (i + 1)))
+      (us.map (fun u => implicitCell (linear a) dt t u i)) = ((a * dt) ^ 2) ^ i * (((a * dt) ^ 2) ^ 2 * S) := by
+    intro i
+    rw [msqDiff_map, hS, ← mul_div_assoc, ← mul_div_assoc, ← List.sum_map_mul_left, ← List.sum_map_mul_left]
+    congr 2
+    apply List.map_congr_left
+    intro u _
+    rw [implicit_increment]; ring
+  obtain ⟨i, hi⟩ := exists_geometric_lt ((a * dt) ^ 2) (((a * dt) ^ 2) ^ 2 * S) (maxerror * maxerror)
+    hz2 (mul_nonneg (sq_nonneg _) hS0) (mul_pos he he)
+  refine ⟨i + 1, fun maxiter hm => ?_⟩
+  unfold implicitStep
+  apply fixpointLoop_some_of_pass
+  refine ⟨i, by omega, ?_⟩
+  rw [implicit_iterate_cells, implicit_iterate_cells, hmsq]
+  exact hi
+
+/-- **contraction implies termination (Crank-Nicolson)**: for `|q| < 1`, `q = α + (1-α) z/2` -/
+theorem cnStep_terminates [Archimedean K] (α a maxerror dt : K) (us : List K) (t : K)
+    (hq : |α + (1 - α) * (a * dt / 2)| < 1) (he : 0 < maxerror) :
+    ∃ N0 : Nat, ∀ maxiter, N0 ≤ maxiter →
+      (cnStep α (linear a) maxiter maxerror dt us t).isSome = true := by
+  obtain ⟨q, hqd⟩ : ∃ q : K, q = α + (1 - α) * (a * dt / 2) := ⟨_, rfl⟩
+  obtain ⟨c0, hc0⟩ : ∃ c0 : K, c0 = (q - 1) * (α + (1 - α) * (1 + a * dt)) + (1 - α) * (1 + a * dt / 2) :=
+    ⟨_, rfl⟩
+  rw [← hqd] at hq
+  set S : K := (us.map (fun u => u * u)).sum / (us.length : K) with hS
+  have hS0 : 0 ≤ S := meanSq_nonneg us
+  have hq2 : q ^ 2 < 1 := by
+    have := abs_nonneg q
+    rw [← sq_abs]; nlinarith
+  have hmsq : ∀ i : Nat, msqDiff (us.map (fun u => cnCell α (linear a) dt t u (i + 1)))
+      (us.map (fun u => cnCell α (linear a) dt t u i)) = (q ^ 2) ^ i * (c0 ^ 2 * S) := by
+    intro i
+    rw [msqDiff_map, hS, ← mul_div_assoc, ← mul_div_assoc, ← List.sum_map_mul_left, ← List.sum_map_mul_left]
+    congr 2
+    apply List.map_congr_left
+    intro u _
+    rw [cn_increment_geometric, ← hqd, hc0]; ring
+  obtain ⟨i, hi⟩ := exists_geometric_lt (q ^ 2) (c0 ^ 2 * S) (maxerror * maxerror)
+    hq2 (mul_nonneg (sq_nonneg _) hS0) (mul_pos he he)
+  refine ⟨i + 1, fun maxiter hm => ?_⟩
+  unfold cnStep
+  apply fixpointLoop_some_of_pass
+  refine ⟨i, by omega, ?_⟩
+  rw [cn_iterate_cells, cn_iterate_cells, hmsq]
+  exact hi
+
+
 /-! ### the fixed-step loop -/
 
 /-- `steps = max(1, round((t_end - t_start)/dt))` -/
@@ -515,7 +756,11 @@ theorem fixedLoop_eq_iterSteps {σ : Type} (step : σ → K → Option σ) (dt t
 
 /-- **the loop is the iterate of the one-step map on the time lattice**: the result of
 `fixed_stepper` is the composition of `stepCount` single steps, the `i`-th of them started at
-`t_start + i*dt`, and the returned time is `t_start + steps*dt` -/
+`t_start + i*dt`, and the returned time is `t_start + steps*dt`.
+(No hypothesis `0 < dt`: the statement is about the model's total functions; at `dt = 0` the model
+divides `x/0 = 0` and takes one step of length 0, whereas the code raises `ZeroDivisionError` -
+that input belongs to the malformed stream of the harness, the theorem says nothing about the
+code there.) -/
 theorem fixedStepper_is_iterate {σ : Type} (step : σ → K → Option σ) (dt ts te : K) (s : σ) :
     fixedStepper step dt ts te s
       = (iterSteps step dt ts 0 (stepCount dt ts te) s).map
@@ -711,8 +956,13 @@ theorem lastStep_exact (C : Ctl K) (tEnd : K) (r : AState K) (h : LastStep C tEn
 
 /-- **adaptive stepping ends exactly at the requested time** whenever the interval that remained
 before the last accepted step was at least `dt_min` (the code never steps by less than
-`dt_min`, so a shorter remainder is overshot by less than `dt_min`) -/
-theorem adaptive_exact_end (C : Ctl K) (est : List K → K → K → List K × K) (f : Rate K)
+`dt_min`, so a shorter remainder is overshot by less than `dt_min`).
+PARTIAL with respect to the property clause "ends exactly at the requested time"
+(full statement: `adaptiveStepper .. = .done r → r.t = tEnd`, which is false of the model as of
+the code when less than `dt_min` remains, see `adaptive_end_exact_or_floor`); it speaks about
+finished calls only: there is no theorem that a call finishes (`.done`) - the loop may reject
+for ever or raise `dt below dt_min`, both depend on the `pow` oracle and the rate -/
+theorem adaptive_exact_end_partial (C : Ctl K) (est : List K → K → K → List K × K) (f : Rate K)
     (fuel : Nat) (us : List K) (tStart tEnd dt0 : K) (r : AState K) (hstart : tStart < tEnd) :
     (adaptiveStepper C est fuel us tStart tEnd dt0 = .done r →
       ∃ rec : Rec K, r.trace.head? = some rec ∧ rec.accepted = true ∧ rec.t < tEnd
@@ -722,6 +972,37 @@ theorem adaptive_exact_end (C : Ctl K) (est : List K → K → K → List K × K
         ∧ (C.dtMin ≤ tEnd - rec.t → r.t = tEnd)) :=
   ⟨fun h => lastStep_exact C tEnd r (adaptiveLoop_last C est tEnd fuel _ r hstart h),
    fun h => lastStep_exact C tEnd r (eulerAdaptiveLoop_last C f tEnd fuel _ r hstart h)⟩
+
+/-- **where a finished adaptive call ends, completely**: exactly at the requested time, or - only
+if less than `dt_min` remained before the last accepted step, which then has the size `dt_min` -
+beyond it by less than `dt_min`.  (In exact arithmetic the second case needs an unclipped step
+that lands within `dt_min` before `t_end`; in IEEE arithmetic also `t + (t_end - t)` rounded to the
+float below `t_end`, after which one more step of `dt_min` follows: this is what the monitor reports
+as "final time beyond t_end by one extra step of dt_min".) -/
+theorem adaptive_end_exact_or_floor (C : Ctl K) (est : List K → K → K → List K × K) (f : Rate K)
+    (fuel : Nat) (us : List K) (tStart tEnd dt0 : K) (r : AState K) (hstart : tStart < tEnd)
+    (hmin : 0 < C.dtMin)
+    (h : adaptiveStepper C est fuel us tStart tEnd dt0 = .done r
+      ∨ eulerAdaptiveStepper C f fuel us tStart tEnd dt0 = .done r) :
+    r.t = tEnd ∨ (tEnd < r.t ∧ r.t < tEnd + C.dtMin
+      ∧ ∃ rec : Rec K, r.trace.head? = some rec ∧ rec.accepted = true ∧ rec.dt = C.dtMin
+          ∧ r.t = rec.t + C.dtMin ∧ tEnd - rec.t < C.dtMin) := by
+  have hl : LastStep C tEnd r := by
+    rcases h with h | h
+    · exact adaptiveLoop_last C est tEnd fuel _ r hstart h
+    · exact eulerAdaptiveLoop_last C f tEnd fuel _ r hstart h
+  obtain ⟨rec, h1, h2, ht, hdt, hlt, hge⟩ := hl.ex
+  rcases le_or_gt C.dtMin (tEnd - rec.t) with hrem | hrem
+  · left
+    have hb := (dtStep_bounds C r.dtOpt tEnd rec.t).2.2.1 hrem
+    rw [← hdt] at hb
+    linarith
+  · right
+    have hd : rec.dt = C.dtMin := by
+      rw [hdt, dtStep_eq]
+      apply max_eq_right
+      exact le_trans (min_le_right _ _) hrem.le
+    refine ⟨by rw [ht, hd]; linarith, lastStep_overshoot C tEnd r hmin hl, rec, h1, h2, hd, by rw [ht, hd], hrem⟩
 
 /-- a call that fits into one step of the carried-over size is a single step of exactly the
 requested length -/
@@ -871,12 +1152,6 @@ end real
 section eulerGlobal
 open Real
 
-theorem zipWith_map_map {α β γ δ : Type} (g : β → γ → δ) (h1 : α → β) (h2 : α → γ) (us : List α) :
-    List.zipWith g (us.map h1) (us.map h2) = us.map (fun u => g (h1 u) (h2 u)) := by
-  induction us with
-  | nil => rfl
-  | cons u us ih => simp [ih]
-
 theorem forall₂_and_mem {α β : Type} (P : α → β → Prop) (Q : α → Prop) :
     ∀ (xs : List α) (ys : List β), List.Forall₂ P xs ys → (∀ x ∈ xs, Q x) →
       List.Forall₂ (fun x y => P x y ∧ Q x) xs ys := by
@@ -988,6 +1263,32 @@ theorem adaptive_euler_model_global_error (C : Ctl ℝ) (a : ℝ) (ha : a ≤ 0)
     exact List.forall₂_same.mpr (fun _ _ => by simp)
 
 end eulerGlobal
+
+/-! ### the rate carried between the steps of adaptive Euler -/
+
+section carriedRate
+
+/-- controller used by the witnesses below (explicit constants: independent of the generated ones) -/
+noncomputable def witnessCtl : Ctl ℝ :=
+  { tol := 1000, dtMin := 1 / 10 ^ 10, dtMax := 10 ^ 10, small := 1 / 1000, up := 4, nan := 1 / 4,
+    safety := 9 / 10, expo := -1 / 5, down := 1 / 10, pow := fun _ _ => 1, isNan := fun _ => false }
+
+/-- **the carried rate of adaptive Euler is taken at the old time** (model as the code is: euler.py
+`rate = rhs_pde(step_small, t)` before `t += dt_step`, same in the compiled loop).  On `u' = t`,
+`u(0) = 0`, two accepted steps of `1/4`: the model returns `1/16`; the scheme (every step
+`h/2 g(t) + h/2 g(t + h/2)`) gives `3/32`, the exact solution is `1/8`.  The harness reports this
+on the real code as a stage-time failure (key: rate of accepted state taken at old time); after the
+proposed repair (`rhs_pde(step_small, t + dt_step)`) model and this witness change to `3/32`
+(notes/proposed_fixes/C06-adaptive-euler-rate-time.model.diff). -/
+theorem eulerAdaptive_carried_rate_taken_at_old_time :
+    ∃ r, eulerAdaptiveStepper witnessCtl (cubic 0 1 0 0) 5 [0] 0 (1 / 2) (1 / 4) = .done r
+      ∧ r.t = 1 / 2 ∧ r.steps = 2 ∧ r.us = [1 / 16]
+      ∧ (1 / 16 : ℝ) ≠ 0 + ((1 / 4) / 2 * (0 + 1 / 8) + (1 / 4) / 2 * (1 / 4 + 3 / 8)) := by
+  refine ⟨⟨[1 / 16], 1 / 2, 1, 2, [⟨1 / 4, 1 / 4, 3 / 64000, true⟩, ⟨0, 1 / 4, 1 / 64000, true⟩]⟩,
+    ?_, rfl, rfl, rfl, by norm_num⟩
+  norm_num [eulerAdaptiveStepper, eulerAdaptiveLoop, witnessCtl, dtStep, pmax, pmin, adjustDt, cubic, maxAbs, absK]
+
+end carriedRate
 
 /-! ### the generic adaptive loop with the Euler step-doubling estimate (real numbers) -/
 
@@ -1403,6 +1704,24 @@ example : |(9 / 16 : ℝ) - Real.exp (-1 * (1 / 2)) * 1| ≤ 1 * (1 / 16) := by
     (by intro i hi; have : i = 0 := by omega
         subst this; norm_num [abs_le])
   simpa using this
+
+/-- `implicitStep_converged_close` on the converged example above (`z = -1/8`, one cell):
+`((1 - z) y - u)^2 = (1/512)^2 ≤ z^2 * 1 * (1/10)^2` -/
+example : ((1 - (-1 / 2 : ℝ) * (1 / 4)) * (57 / 64) - 1) ^ 2
+    ≤ ((-1 / 2 : ℝ) * (1 / 4)) ^ 2 * ((([1] : List ℝ).length : ℝ) * (1 / 10 * (1 / 10))) := by
+  have h : implicitStep (linear (-1 / 2 : ℝ)) 100 (1 / 10) (1 / 4) [1] 0 = some ([57 / 64], 1) := by
+    norm_num [implicitStep, fixpointLoop, msqDiff, implicitIter, implicitPredict, linear, HasNormSq.nsq]
+  have := implicitStep_converged_close (-1 / 2 : ℝ) 100 (1 / 10) (1 / 4) [1] 0 _ _ h
+  simpa using this
+
+/-- the hypotheses of the termination theorems are satisfiable (`z = -1/8`; `α = 1/4`, `q = 13/64`) -/
+example : ∃ N0 : Nat, ∀ maxiter, N0 ≤ maxiter →
+    (implicitStep (linear (-1 / 2 : ℝ)) maxiter (1 / 10 ^ 6) (1 / 4) [1, -2] 0).isSome = true :=
+  implicitStep_terminates _ _ _ _ _ (by rw [abs_lt]; constructor <;> norm_num) (by norm_num)
+
+example : ∃ N0 : Nat, ∀ maxiter, N0 ≤ maxiter →
+    (cnStep (1 / 4) (linear (-1 / 2 : ℝ)) maxiter (1 / 10 ^ 6) (1 / 4) [1, -2] 0).isSome = true :=
+  cnStep_terminates _ _ _ _ _ _ (by rw [abs_lt]; constructor <;> norm_num) (by norm_num)
 
 end examples
 
